@@ -237,6 +237,51 @@ def leaf_imp(name: str) -> str:
             f'<xs:element name="{name}" type="xs:string"/><xs:element name="r" type="xs:string"/></xs:schema>')
 
 
+# Component names and their TWINS: names that differ byte-wise but become equal under a normalisation that a
+# comparison could wrongly apply.  Each group gets its own sub-tree  R/tw<k>/<name>/<name>  (the sandbox; its parent
+# carries the same name so that twins occur as SIBLINGS and as ANCESTORS of the base), with target files in every twin.
+TWIN_GROUPS: list[tuple[str, list[tuple[str, str]]]] = [
+    ('B\u00e9 a', [('b\u00e9 a', 'case:lower'), ('B\u00c9 A', 'case:upper'), ('Be\u0301 a', 'unicode:NFD'),
+                   ('B\u00e9+a', 'plus-vs-space'), ('B\u00e9 a.', 'trailing-dot'), ('B\u00e9 a ', 'trailing-space'),
+                   ('B\u00e9%20a', 'literal-percent:space'), ('B%C3%A9 a', 'literal-percent:utf8'),
+                   ('B\u00e9\u00a0a', 'unicode:NFKC-nbsp')]),
+    ('p%2eq', [('p%2Eq', 'percent-hex-case'), ('p.q', 'percent-decoded'), ('P%2EQ', 'case:upper')]),
+    ('%41b', [('Ab', 'percent-decoded'), ('%61b', 'percent-vs-case'), ('ab', 'case:lower')]),
+    ('stra\u00dfe', [('strasse', 'casefold'), ('STRASSE', 'casefold:upper'), ('Stra\u00dfe', 'case:title')]),
+    ('\ufb01x1', [('fix1', 'unicode:NFKC-ligature'), ('\ufb01x\u00b9', 'unicode:NFKC-superscript')]),
+]
+
+
+def build_twins(tree: 'Tree') -> list[dict]:
+    """creates the twin sub-trees; returns one record per (group, twin, position)"""
+    out = []
+    for k, (name, twins) in enumerate(TWIN_GROUPS):
+        top = os.path.join(tree.root, f'tw{k}')
+        sb = os.path.join(top, name, name)
+        os.makedirs(os.path.join(sb, 'sub'), exist_ok=True)
+        files = [(sb, 'in', 'inc.xsd', 'imp.xsd'), (os.path.join(sb, 'sub'), 'insub', 'inc.xsd', 'imp.xsd'),
+                 (sb, 'in-upper', 'INC.XSD', 'IMP.XSD')]           # file-name twins INSIDE the sandbox
+        for ti, (tw, why) in enumerate(twins):
+            sib = os.path.join(top, name, tw)                       # sibling of the base
+            anc = os.path.join(top, tw, name)                       # same base name below a twin ancestor
+            files.append((sib, f'sib{ti}', 'inc.xsd', 'imp.xsd'))
+            files.append((anc, f'anc{ti}', 'inc.xsd', 'imp.xsd'))
+            out.append({'k': k, 'name': name, 'twin': tw, 'why': why, 'pos': 'sibling', 'dir': sib, 'sb': sb})
+            out.append({'k': k, 'name': name, 'twin': tw, 'why': why, 'pos': 'ancestor', 'dir': anc, 'sb': sb})
+        for d, tag, finc, fimp in files:
+            os.makedirs(d, exist_ok=True)
+            for fn, leaf, what in ((finc, leaf_inc, 'inc'), (fimp, leaf_imp, 'imp')):
+                el = f'tw{k}_{tag}_{what}'
+                with open(os.path.join(d, fn), 'w') as f:
+                    f.write(leaf(el))
+                tree.owner[el] = ('file', os.path.join(d, fn))
+    # every twin is a different directory of a case-/normalisation-sensitive file system
+    for t in out:
+        if os.path.samefile(t['dir'], t['sb']) or not os.path.isdir(t['dir']):
+            raise RuntimeError('the temp file system identifies twin directories: ' + repr(t))
+    return out
+
+
 class Tree:
     def __init__(self) -> None:
         self.root = os.path.realpath(tempfile.mkdtemp(prefix='c12-', dir='/tmp'))
@@ -257,6 +302,7 @@ class Tree:
                 self.owner[rn] = ('remote', up)
         self.table = table
         self.sand = os.path.join(self.root, 'sand')
+        self.twins = build_twins(self)
 
     def close(self) -> None:
         shutil.rmtree(self.root, ignore_errors=True)
@@ -404,6 +450,8 @@ def run_real(tree: Tree, allow: str, kind: str, mech: str, loc: str, idx: int) -
         src: Any = path
     elif kind == 'file-url':
         src = 'file://' + path
+    elif kind == 'file-url-quoted':      # the only correct way to name a path with a literal '%' in a component
+        src = url_of_path(path)
     elif kind == 'relpath':
         src = name                       # cwd is R/sand
     elif kind == 'pathlib':
@@ -448,7 +496,8 @@ def run_real(tree: Tree, allow: str, kind: str, mech: str, loc: str, idx: int) -
                 except xmlschema.XMLSchemaValidationError:
                     out['outcome'] = 'invalid'
             elif mech == 'hint-dynamic':
-                schema = XMLSchema10(DYN_SCHEMA, allow=allow, base_url=kwargs.get('base_url', tree.sand))
+                schema = XMLSchema10(DYN_SCHEMA, allow=allow, base_url=kwargs.get(
+                    'base_url', url_of_path(tree.sand) if kind == 'file-url-quoted' else tree.sand))
                 errs = list(schema.iter_errors(src, use_location_hints=True))
                 out['outcome'] = 'invalid' if errs else 'ok'
             else:
@@ -481,7 +530,11 @@ def run_real(tree: Tree, allow: str, kind: str, mech: str, loc: str, idx: int) -
 
 
 def inside(d: str, p: str) -> bool:
-    return p == d or p.startswith(d.rstrip('/') + '/')
+    """byte-exact, component-wise containment of real paths (what trace_sandbox_confined states: `comps d <+: comps p`):
+    no case folding, no Unicode normalisation, no percent decoding — a twin of a component is another component"""
+    db = [c for c in os.fsencode(d).split(b'/') if c]
+    pb = [c for c in os.fsencode(p).split(b'/') if c]
+    return pb[:len(db)] == db
 
 
 def is_remote_scheme(url: str) -> bool:
@@ -1271,6 +1324,7 @@ def explore(ctx: Ctx, drv: Optional[Driver], full: bool) -> None:
         # ---- 3. whole load trees, remote rendering, the stdlib re-implementations ------------------
         newline_cases(ctx, tree, batch if drv is not None else None)
         remote_base_cases(ctx, tree, batch if drv is not None else None)
+        twin_cases(ctx, tree, batch if drv is not None else None)
         trace_cases(ctx, drv, tree)
         render_cases(ctx, drv, tree)
         coding_cases(ctx, drv)
@@ -1445,6 +1499,115 @@ def remote_base_cases(ctx: Ctx, tree: Tree, batch: Optional[Batch]) -> None:
                             collect_model_requests(batch, case, obs, tree.sand)
 
 
+class use_sand:
+    """run_real / evaluate work relative to `tree.sand` and the working directory: point both at another sandbox"""
+
+    def __init__(self, tree: Tree, sb: str) -> None:
+        self.tree, self.sb = tree, sb
+
+    def __enter__(self) -> None:
+        self.old = (self.tree.sand, os.getcwd())
+        self.tree.sand = self.sb
+        os.chdir(self.sb)
+
+    def __exit__(self, *a: Any) -> None:
+        self.tree.sand = self.old[0]
+        os.chdir(self.old[1])
+
+
+def twin_spellings(sb: str, target: str) -> list[tuple[str, str]]:
+    from urllib.parse import quote
+    import re
+    rel = os.path.relpath(target, sb)
+    q = quote(target)
+    return [('relative', rel), ('absolute', target), ('file-url', 'file://' + q),
+            ('file-url-lowerhex', 'file://' + re.sub(r'%[0-9A-F]{2}', lambda m: m.group(0).lower(), q)),
+            ('relative-quoted', quote(rel)), ('file-url-raw', 'file://' + target)]
+
+
+TWIN_MECHS = ['include', 'import', 'redefine', 'override', 'uri-mapper', 'locations', 'locations-lazy', 'hint-fetch',
+              'hint-dynamic', 'main-source']
+
+
+def run_twin(tree: Tree, sb: str, allow: str, kind: str, mech: str, loc: str, idx: int) -> dict:
+    """one case with the sandbox `sb` (a directory that has twins as siblings and ancestors)"""
+    with use_sand(tree, sb):
+        if mech != 'main-source':
+            return run_real(tree, allow, kind, mech, loc, idx)
+        # the main source itself lies in a twin directory; base_url = the sandbox
+        from xmlschema import XMLSchema10
+        from xmlschema.exceptions import XMLSchemaException
+        Obs.table = dict(tree.table)
+        Obs.events, Obs.served, Obs.access, Obs.inits = [], [], [], []
+        obs: dict[str, Any] = {'outcome': 'ok', 'elements': [], 'sandbox_dir': sb, 'main_path': ''}
+        schema = None
+        base = sb if kind not in ('file-url', 'file-url-quoted') else url_of_path(sb)
+        with warnings.catch_warnings():
+            warnings.simplefilter('ignore')
+            Obs.active = True
+            try:
+                schema = XMLSchema10(loc, allow=allow, base_url=base)
+            except (XMLSchemaException, OSError) as e:
+                obs['outcome'] = type(e).__name__
+                obs['message'] = str(e)[:160]
+            except Exception as e:      # noqa
+                obs['outcome'] = 'FOREIGN:' + type(e).__name__
+                obs['message'] = str(e)[:160]
+            finally:
+                Obs.active = False
+        if schema is not None:
+            obs['elements'] = sorted(k.split('}')[-1] for k in schema.maps.elements if not k.startswith('{' + XS))
+        obs.update(events=list(Obs.events), served=list(Obs.served), access=list(Obs.access), inits=list(Obs.inits))
+        return obs
+
+
+def twin_cases(ctx: Ctx, tree: Tree, batch: Optional[Batch]) -> None:
+    """sandbox x mechanism x spelling for targets in directories that are TWINS of a component of the base (letter
+    case, Unicode normalisation, percent-encoding, '+'/space, trailing dot/space), as siblings and as ancestors.
+    Property evaluation is byte-exact on real paths (`inside`).  allow='all' is run as the positive control: the
+    spelling really reaches the twin file."""
+    R = tree.root
+    idx = 0
+    for ti, t in enumerate(tree.twins):
+        sb = t['sb']
+        for mi, mech in enumerate(TWIN_MECHS):
+            f = 'inc.xsd' if mech in ('include', 'redefine', 'override', 'uri-mapper', 'main-source') else 'imp.xsd'
+            target = os.path.join(t['dir'], f)
+            sp = twin_spellings(sb, target)
+            if ctx.quick():
+                sp = [sp[(ti + mi) % len(sp)], sp[(ti + mi + 2) % len(sp)]]
+            for si, (sname, loc) in enumerate(sp):
+                modes = ['sandbox', 'all'] if (ctx.quick() and (ti + mi + si) % 4) else ['sandbox', 'all', 'local', 'none']
+                for allow in modes:
+                    if '%' in sb:
+                        # a literal '%' in a component of the sandbox: a plain path would be percent-DEcoded by the
+                        # library (paths are read as URLs), so the caller has to pass quoted file URLs
+                        kinds = ['file-url-quoted']
+                    elif ctx.quick():
+                        kinds = [['path', 'text', 'file-url'][(ti + mi + si) % 3]]
+                    else:
+                        kinds = ['path', 'file-url', 'text', 'fileobj', 'pathlib', 'file-url-quoted']
+                    for kind in kinds:
+                        idx += 1
+                        case = {'allow': allow, 'kind': kind, 'mech': 'twin:' + mech, 'loc': loc.replace(R, '$R'),
+                                'class': 'twin', 'twin': t['why'], 'pos': t['pos'], 'sb': sb.replace(R, '$R'),
+                                'spelling': sname}
+                        obs = run_twin(tree, sb, allow, kind, mech, loc, idx)
+                        with use_sand(tree, sb):
+                            evaluate(ctx, tree, case, obs)
+                        reached = any(p == target for e, p in obs['events'] if e == 'open')
+                        ctx.case(case, any(a['allow'] != 'all' and a['url'] is not None for a in obs['access']),
+                                 tag='mech:twin')
+                        ctx.count(f"twin:{t['why'].split(':')[0]}:{t['pos']}")
+                        if allow == 'all':
+                            ctx.count('twin:control-reached' if reached else 'twin:control-not-reached')
+                        ctx.count('outcome:' + obs['outcome'])
+                        for a in obs['access']:
+                            ctx.count('impl-access:' + a['decision'])
+                        if batch is not None:
+                            collect_model_requests(batch, case, obs, sb)
+
+
 def translate(ctx: Ctx) -> None:
     """Regenerate the mode enumeration the exhaustive-case theorems range over."""
     from xmlschema.arguments import SECURITY_MODES
@@ -1498,6 +1661,10 @@ def replay(ctx: Ctx, obj: dict) -> int:
             print('regenerated load tree (postorder [location, strict, children]):', case['nodes'])
         elif case['mech'] == 'newline-remote-base':
             obs = run_remote_base(tree, case['allow'], 'text', 'include', loc, case['base'], 0)
+        elif case['mech'].startswith('twin:'):
+            sb = case['sb'].replace('$R', tree.root)
+            obs = run_twin(tree, sb, case['allow'], case['kind'], case['mech'].split(':', 1)[1], loc, 0)
+            tree.sand = sb
         elif case['mech'].startswith('remote-base:'):
             obs = run_remote_base(tree, case['allow'], case['kind'], case['mech'].split(':', 1)[1], loc, case['base'],
                                   case.get('idx', 0))
